@@ -71,7 +71,7 @@ class TState:
     __slots__ = ('sim', 'name', 'role', 'index', 'daemon', 'target', 'args',
                  'kwargs', 'sem', 'state', 'wake_time', 'timed_out',
                  'block_kind', 'block_on', 'joiners', 'exc', 'real', 'tag',
-                 'stalls', 'steps', 'last_run')
+                 'stalls', 'steps', 'last_run', 'acquiring')
 
     def __init__(self, sim, name, role, index, daemon, target, args, kwargs):
         self.sim = sim
@@ -95,6 +95,7 @@ class TState:
         self.stalls = 0
         self.steps = 0
         self.last_run = 0
+        self.acquiring = False
 
 
 _ROLE_BY_TARGET = {
@@ -439,8 +440,11 @@ class Sim:
             return chosen
 
     def _lock_waiter(self):
+        """Is some thread inside a timed lock acquisition (blocked on it, or
+        woken and about to re-contend)?  No stall is applied then, so that the
+        1 s lock time-outs of JobControl stay dormant (DESIGN.md 2.4)."""
         for t in self.threads:
-            if t.state == 'blocked' and t.block_kind == 'lock':
+            if t.state != 'done' and t.acquiring:
                 return True
         return False
 
@@ -560,23 +564,28 @@ class SimRLock:
         deadline = None
         if timeout is not None and timeout >= 0:
             deadline = sim.now + timeout
-        while True:
-            if self._owner is None or (self._reentrant and self._owner is st):
-                self._owner = st
-                self._count += 1
-                sim.logev('lock.acq', self.id)
-                return True
-            if not blocking:
-                return False
-            if deadline is not None and sim.now >= deadline:
-                sim.logev('lock.timeout', self.id)
-                sim.count('lock_timeout')
-                return False
-            self._waiters.append(st)
-            sim.count('lock_contended')
-            sim.block('lock', self.id, deadline)
-            if st in self._waiters:
-                self._waiters.remove(st)
+        try:
+            while True:
+                if self._owner is None or (self._reentrant
+                                           and self._owner is st):
+                    self._owner = st
+                    self._count += 1
+                    sim.logev('lock.acq', self.id)
+                    return True
+                if not blocking:
+                    return False
+                if deadline is not None and sim.now >= deadline:
+                    sim.logev('lock.timeout', self.id)
+                    sim.count('lock_timeout')
+                    return False
+                self._waiters.append(st)
+                sim.count('lock_contended')
+                st.acquiring = deadline is not None
+                sim.block('lock', self.id, deadline)
+                if st in self._waiters:
+                    self._waiters.remove(st)
+        finally:
+            st.acquiring = False
 
     def release(self):
         sim = self._sim
